@@ -102,6 +102,9 @@ mod simple_cycle;
 mod space;
 #[allow(dead_code)]
 mod util;
+#[cfg(meshless_voro_verif)]
+#[allow(private_bounds)]
+pub mod verif;
 #[allow(private_bounds)]
 mod voronoi;
 
